@@ -10,6 +10,7 @@ From Coq Require Import List NArith Bool Sorted.
 From PyTrie.Base Require Import Bytes Result Nibbles.
 From PyTrie.Base Require Import AMap Rlp.
 From PyTrie.Hexary Require Import Raw Tree TreeTraverse Tree_aux Tree_map Tree_unique Tree_traverse_proofs D D_read Refine_read.
+From PyTrie.Fog Require Import Walk Walk_proofs.
 Import ListNotations.
 
 (* blank exactly when no stored key starts with the path *)
@@ -97,3 +98,13 @@ Theorem C08_traverse_refines : forall H BNH, (forall x, length (H x) = 32%nat) -
   forall p, nibs_ok p = true -> fst (traverse BNH p (plain m r)) = traverse_spec H t p.
 Proof. exact Refine_read.traverse_refines. Qed.
 Print Assumptions C08_traverse_refines.
+
+(* traverse_from(parent, seg) on the node reached at prefix p returns exactly the annotation of
+   the tree-level traversal of seg below that node (hence agrees with traverse(p ++ seg), by
+   C08_from) *)
+Theorem C08_traverse_from_refines : forall H, (forall x, length (H x) = 32%nat) ->
+  forall m r t, represents H m r t -> canonical_top t = true -> decodable H t -> no_blank_collision H Walk.BNH t ->
+  forall p n seg, nibs_ok p = true -> ttraverse t p = TAt n -> nibs_ok seg = true ->
+  fst (traverse_from Walk.BNH (enc H n) seg (plain m r)) = traverse_spec H n seg.
+Proof. exact Walk_proofs.traverse_from_refines. Qed.
+Print Assumptions C08_traverse_from_refines.
